@@ -137,7 +137,7 @@ pub fn extract_parameters(op: &Operation, item: &PathItem, spec: &OpenAPI) -> Re
         let body_args = props.map(|(name, param)| {
             let ty = schema_ref_to_ty(param, spec);
             let param: &Schema = param.resolve(spec);
-            let optional = extractor::is_optional(name, param, body);
+            let optional = extractor::is_optional(name, param, declaring_schema(body, name, spec));
             let name = name.to_string();
             hir::Parameter {
                 name,
@@ -164,6 +164,19 @@ pub fn extract_parameters(op: &Operation, item: &PathItem, spec: &OpenAPI) -> Re
         });
     }
     Ok(inputs)
+}
+
+/// For an `allOf` body, the member that declares `name`: its `required` list is the one that applies.
+fn declaring_schema<'a>(schema: &'a Schema, name: &str, spec: &'a OpenAPI) -> &'a Schema {
+    if let SchemaKind::AllOf { all_of } = &schema.kind {
+        for member in all_of {
+            let member = member.resolve(spec);
+            if member.properties_iter(spec).any(|(n, _)| n == name) {
+                return declaring_schema(member, name, spec);
+            }
+        }
+    }
+    schema
 }
 
 pub fn get_body<'a>(op: &'a Operation, spec: &'a OpenAPI) -> Option<&'a Schema> {
